@@ -190,7 +190,7 @@ def analyse(fn, pidx, kind, family, prop, res):
 
 def run(prop="C02", tier="quick"):
     res = dict(findings=[], stats=collections.Counter(), samples=[], notes=[])
-    ex = sa.export(sa.Config("built-divzero", extra_files=[FIXTURE]))
+    ex = sa.export(sa.cfg_builtfx())
     sa.check_errors(ex)
     family = {}
     for cols in spec_tsv("division_api.tsv", 4):
